@@ -138,6 +138,13 @@ package parser
 //@   results rule, isEmpty
 //@   ensures !isEmpty ==> wellFormed(rule)
 //@   ensures isEmpty ==> rule.AlertingRule == nil && rule.RecordingRule == nil && rule.Error.Err == nil
+//@   ensures !isEmpty && rule.Error.Err == nil && rule.RecordingRule != nil ==> len(rule.RecordingRule.Record.Pos) >= 1 &&
+//@              rule.RecordingRule.Expr.Value != nil && len(rule.RecordingRule.Expr.Value.Pos) >= 1
+//@   ensures !isEmpty && rule.Error.Err == nil && rule.AlertingRule != nil ==> len(rule.AlertingRule.Alert.Pos) >= 1 &&
+//@              rule.AlertingRule.Expr.Value != nil && len(rule.AlertingRule.Expr.Value.Pos) >= 1
+//@   loop 1 invariant recordPart != nil ==> len(recordPart.Pos) >= 1
+//@   loop 1 invariant alertPart != nil ==> len(alertPart.Pos) >= 1
+//@   loop 1 invariant exprPart != nil ==> exprPart.Value != nil && len(exprPart.Value.Pos) >= 1
 
 // Strict mode hands the rule to every check, so it must be well formed too.
 //@ func parseRuleStrict [C02]
@@ -146,3 +153,14 @@ package parser
 // Relaxed mode, YAML inside a YAML scalar: the line after the scalar's first line is read from the file's line table.
 //@ func Parser.parseNode [C02]
 //@   at call countLeadingSpace assert node.Line < len(contentLines)
+
+// Every field node the parser builds carries at least one position (C06 / C02: reporters index and take maxima
+// over them). yaml.v3 nodes are 1-indexed: that fact about the dependency is assumed at the call sites.
+//@ func newYamlNode [C02, C06]
+//@   assumed requires
+//@   requires node != nil && node.Line >= 1 && node.Column >= 1 && minColumn >= 1
+//@   ensures result != nil && len(result.Pos) >= 1
+//@ func newPromQLExpr [C02, C06]
+//@   assumed requires
+//@   requires node != nil && node.Line >= 1 && node.Column >= 1 && minColumn >= 1
+//@   ensures result != nil && result.Value != nil && len(result.Value.Pos) >= 1
